@@ -140,6 +140,7 @@ class Realiser:
     def __init__(self, spec):
         self.spec = spec
         self.counters: dict[int, VaryCounter] = {}
+        self.variant: dict[int, int] = {}
         self.fn_cache: dict[int, Any] = {}
         self.model_cache: dict[int, Any] = {}
 
@@ -157,10 +158,12 @@ class Realiser:
         def body(*args):
             env = [(a, "f") for a in args]
             ctr.n += 1
+            variant_here = self.variant.get(fi)
             self.run_stmts(fs["body"]["stmts"], env)
+            self.variant[fi] = variant_here
             outs = [env[r][0] for r in fs["body"]["outs"]]
-            if fs.get("vary") and ctr.n >= fs.get("vary_from", 3):
-                # the body differs from the earlier invocations: one more Neg on the first result
+            if self.variant.get(fi):
+                # this call site uses a different body: one more Neg on the first result
                 outs[0] = _opmod(17).neg(outs[0])
             return outs
 
@@ -232,8 +235,10 @@ class Realiser:
                 for r in res.values():
                     env.append((r, "f"))
             elif k == "call":
-                _, fi, refs = st
-                res = self.func(fi)(*[env[r][0] for r in refs])
+                fi, refs = st[1], st[2]
+                args = [env[r][0] for r in refs]
+                self.variant[fi] = st[3] if len(st) > 3 else 0
+                res = self.func(fi)(*args)
                 for r in res:
                     env.append((r, "f"))
             else:
@@ -367,9 +372,11 @@ class NpEval:
                 _, mi, refs = st
                 env.extend(np_model(self.spec, self.spec["models"][mi], [env[r] for r in refs]))
             elif k == "call":
-                _, fi, refs = st
+                fi, refs = st[1], st[2]
                 fs = self.spec["funcs"][fi]
                 outs = self.body(fs["body"], [], [env[r] for r in refs])
+                if len(st) > 3 and st[3]:
+                    outs[0] = -outs[0]
                 env.extend(outs)
             else:
                 raise ValueError(st)
@@ -384,6 +391,101 @@ def np_eval(spec, feeds, by_model_inputs=False):
     env = list(argv)
     NpEval(spec).stmts(spec["stmts"], env)
     return {name: env[r] for name, r in spec["outputs"]}
+
+
+def _nres(spec, st):
+    k = st[0]
+    if k in ("op", "const", "init"):
+        return 1
+    if k == "if":
+        return len(st[2]["outs"])
+    if k == "loop":
+        return len(st[2])
+    if k == "inline":
+        ms = spec["models"][st[1]]
+        return len(ms["outs"]) if "outs" in ms else len(ms["spec"]["outputs"])
+    if k == "call":
+        return spec["funcs"][st[1]]["nout"]
+    raise ValueError(st)
+
+
+def live_calls(spec):
+    """Call sites that end up in the built model: [(func_index, variant)], by liveness from the outputs
+    (through control-flow bodies and, for live calls, through the called bodies)."""
+    found = []
+
+    def walk(stmts, base_len, needed):
+        starts, n = [], base_len
+        for st in stmts:
+            starts.append(n)
+            n += _nres(spec, st)
+        needed = set(needed)
+        for st, start in reversed(list(zip(stmts, starts))):
+            if not any(start + j in needed for j in range(_nres(spec, st))):
+                continue
+            k = st[0]
+            if k == "op":
+                needed.update(st[3])
+            elif k == "if":
+                needed.add(st[1])
+                for body in (st[2], st[3]):
+                    inner = walk(body["stmts"], start, body["outs"])
+                    needed.update(i for i in inner if i < start)
+            elif k == "loop":
+                needed.update(st[2])
+                body = st[3]
+                extra = 2 + len(st[2])
+                inner = walk(body["stmts"], start + extra, body["outs"])
+                needed.update(i for i in inner if i < start)
+            elif k == "inline":
+                needed.update(st[2])
+            elif k == "call":
+                needed.update(st[2])
+                fi = st[1]
+                found.append((fi, st[3] if len(st) > 3 else 0))
+                fs = spec["funcs"][fi]
+                walk(fs["body"]["stmts"], fs["nin"], fs["body"]["outs"])
+        return needed
+
+    walk(spec["stmts"], len(spec["args"]), [r for _, r in spec["outputs"]])
+    return found
+
+
+def distinguishable_bodies(spec, rng_seed=0):
+    """Keys (domain, name) that are used (live) with two bodies computing different functions.
+    Judged numerically on probe inputs, so two bodies that merely look different are not reported."""
+    import random as _r
+
+    rng = _r.Random(rng_seed)
+    by_key: dict = {}
+    for fi, variant in dict.fromkeys(live_calls(spec)):
+        fs = spec["funcs"][fi]
+        by_key.setdefault((fs["domain"], fs["name"]), []).append((fi, variant))
+    bad = []
+    for key, uses in by_key.items():
+        if len(uses) < 2:
+            continue
+        nins = {spec["funcs"][fi]["nin"] for fi, _ in uses}
+        nouts = {spec["funcs"][fi]["nout"] for fi, _ in uses}
+        if len(nins) > 1 or len(nouts) > 1:
+            bad.append(key)
+            continue
+        nin = nins.pop()
+        probes = [[np.array([rng.choice([-2.0, -1.0, 0.5, 1.0, 3.0]), rng.choice([-1.5, 2.0, 4.0])], F32)
+                   for _ in range(nin)] for _ in range(3)]
+        sigs = set()
+        for fi, variant in uses:
+            fs = spec["funcs"][fi]
+            sig = []
+            for args in probes:
+                outs = NpEval(spec).body(fs["body"], [], list(args))
+                if variant:
+                    outs[0] = -outs[0]
+                sig.append(tuple(tuple(np.asarray(o, F32).tolist()) for o in outs))
+            sigs.add(tuple(sig))
+        if len(sigs) > 1:
+            bad.append(key)
+    return bad
 
 
 def rand_feeds(spec, rng):
@@ -596,7 +698,7 @@ class Gen:
         self.rng = rng
         self.feat = {"if": True, "loop": True, "inline": True, "func": True, "mixed": True,
                      "init": True, "unused": True, "func_in_body": True, "nested_func": True,
-                     "vary": False, "rmax": True}
+                     "vary": False, "rmax": True, "collide": False}
         if feat:
             self.feat.update(feat)
         self.funcs: list[dict] = []
@@ -674,7 +776,10 @@ class Gen:
             elif self.feat["func"] and (depth == 0 or self.feat["func_in_body"]):
                 fi = self.gen_func(depth_budget=rng.choice([0, 1, 1, 2]))
                 fs = self.funcs[fi]
-                stmts.append(["call", fi, [self.pick(types, "f") for _ in range(fs["nin"])]])
+                call = ["call", fi, [self.pick(types, "f") for _ in range(fs["nin"])]]
+                if self.feat["vary"] and rng.random() < 0.25:
+                    call.append(1)
+                stmts.append(call)
                 types.extend(["f"] * fs["nout"])
             else:
                 stmts.append(["op", rng.choice(BINARY), self.ver(),
@@ -732,6 +837,15 @@ class Gen:
         outs = [rng.choice(fsidx[nin:] or fsidx) for _ in range(nout)]
         self.funcs[idx] = {"name": f"fn{idx}", "domain": rng.choice(["spox.function", "dom.a", "dom.b"]),
                            "nin": nin, "nout": nout, "body": {"stmts": stmts, "outs": outs}}
+        if self.feat.get("collide") and rng.random() < 0.2:
+            # a second Python function registered under an existing (domain, name)
+            others = [f for i, f in enumerate(self.funcs) if f is not None and i != idx
+                      and f["nin"] == nin and f["nout"] == nout]
+            if others:
+                o = rng.choice(others)
+                self.funcs[idx]["name"], self.funcs[idx]["domain"] = o["name"], o["domain"]
+                if rng.random() < 0.5:  # ... with the very same body: a legitimate merge
+                    self.funcs[idx]["body"] = copy.deepcopy(o["body"])
         return idx
 
     def gen_func_new(self, depth_budget):
